@@ -34,6 +34,9 @@ func traceOf(c core.Case, out []string) (core.Case, bool) {
 		case "waitt":
 			lines = append(lines, "timedwait")
 			continue
+		case "sethandler":
+			lines = append(lines, "sethandler "+t[1])
+			continue
 		}
 		for _, e := range strings.Split(o, " | ") {
 			e = strings.TrimSpace(e)
